@@ -254,7 +254,10 @@ def step (s : St) (line : String) : St × String :=
     match t.toNat?, n.toNat? with
     | some t, some n =>
       let l := (s.log r).saveVote ⟨t, n, c == "1"⟩
-      (s.setLog r l, verdict (pVote l.vote) impl)
+      -- vote round trip on the implementation's own answer: `read_vote` right after `save_vote v` is `v`
+      if impl != pVote l.vote then
+        (s.setLog r l, s!"JUDGE read_vote after save_vote({pVote l.vote}) returned {impl}")
+      else (s.setLog r l, "ok")
     | _, _ => bad s "vote"
   | ["rvote", r], some impl => (s, verdict (pVote (s.log r).vote) impl)
   | ["get", r, lo, hi], some impl =>
